@@ -1405,6 +1405,11 @@ class BuilderAI:
     def _ev_method(self, n, m, recv, args, env):
         rv = self._ev(recv, env)
         out = self._ev_method1(n, m, recv, rv, args, env)
+        if m == "partition" and out is not None and out.kind != "tuple":
+            # the two halves of a content-based split: each remembers which split it came from
+            pid = "partition:%s:%d" % (self._rel(self.cur.path), n["s"][0])
+            base = with_ops(out, ops_of(rv))
+            return V("tuple", elems=[with_ops(base, frozenset({pid + ":0"})), with_ops(base, frozenset({pid + ":1"}))])
         ops = ops_of(rv)
         if m in ELEM or m in ORDER_FREE:
             ops = E             # one element / a count: the order of the collection it came from no longer matters
